@@ -149,10 +149,6 @@ fn check(a: &[String]) -> i32 {
         }
     }
 
-    // vacuity guard
-    let unmet = if merged.inconclusive.is_empty() { (prop.guard)(&merged, tier) } else { vec![] };
-    for u in &unmet { merged.inconclusive.push(format!("vacuity guard not met: {u}")); }
-
     // known findings
     let known = load_known_findings(&root);
     let mut known_lines = vec![];
@@ -162,6 +158,11 @@ fn check(a: &[String]) -> i32 {
             Some(k) => known_lines.push(format!("KNOWN-FINDING: property={} {} [{}] (seen {}x this run)", prop.id, k.what, k.signature, v.count)),
             None => new_viol.push(v.clone()),
         }
+    }
+
+    // vacuity guard (not evaluated when a case was cut short by a new violation)
+    if new_viol.is_empty() && merged.inconclusive.is_empty() {
+        for u in (prop.guard)(&merged, tier) { merged.inconclusive.push(format!("vacuity guard not met: {u}")); }
     }
 
     // replay files
